@@ -31,6 +31,9 @@ def build(chk):
     c_getdeltas(chk)
     c_helpers_do_not_touch_the_deviation(chk)
     c_containers(chk)
+    # 'momentum compactification and its Jacobian' (anchors): cached momenta and Jacobians are current after every rescaling (shared with C17)
+    from .C17_grids import c_cache
+    c_cache(chk, momentum_only=True)
 
 
 def c_containers(chk):
